@@ -46,6 +46,52 @@ def build_harness():
             raise Inconclusive("harness build failed (does /repo still compile?):\n" + p.stdout + p.stderr)
 
 
+def build_race():
+    """The concurrency recorder built with the Go race detector (C11)."""
+    hdir = os.path.join(BUILD, "harness-src") if REPO != "/repo" else os.path.join(VERIF, "harness")
+    env = dict(GOENV, CGO_ENABLED="1")
+    p = subprocess.run(["go", "build", "-race", "-tags", "verif", "-o", os.path.join(BUILD, "conc-race"), "./cmd/conc"], cwd=hdir, env=env,
+                       capture_output=True, text=True)
+    if p.returncode != 0:
+        raise Inconclusive("race build failed:\n" + p.stdout + p.stderr)
+
+
+LIN_CFG = "SPECIFICATION LSpec\nINVARIANT NotLinearized\nCHECK_DEADLOCK FALSE\n"
+
+
+def record_history(sdk, scenario, seed, g, n, workdir, race=True):
+    out = os.path.join(workdir, "hist-%s-%s-%d.ndjson" % (sdk, scenario, seed))
+    env = dict(os.environ, GORACE="exitcode=0 halt_on_error=0")
+    try:
+        p = subprocess.run([os.path.join(BUILD, "conc-race" if race else "conc"), "-sdk", sdk, "-scenario", scenario, "-seed", str(seed), "-g", str(g),
+                            "-n", str(n), "-out", out], capture_output=True, text=True, timeout=120, env=env)
+    except subprocess.TimeoutExpired:
+        return dict(path=None, outcome="timeout", races=0, stderr="timed out (deadlock?)")
+    races = p.stderr.count("WARNING: DATA RACE")
+    if p.returncode != 0 or not os.path.exists(out):
+        return dict(path=None, outcome="crash", races=races, stderr=p.stderr[-3000:])
+    return dict(path=out, outcome="ok", races=races, stderr=p.stderr[:6000] if races else "")
+
+
+def linearize(hist_path, sdk, timeout=600):
+    """TLC searches a linearization of one history; returns dict(linearizable, states)."""
+    wd = hist_path + ".lin"
+    os.makedirs(wd, exist_ok=True)
+    stage_spec(wd)
+    src = open(os.path.join(wd, "TraceLin.tla")).read().replace("Sdk == 2", "Sdk == %d" % (1 if sdk == "v1" else 2))
+    open(os.path.join(wd, "TraceLin.tla"), "w").write(src)
+    shutil.copyfile(hist_path, os.path.join(wd, "hist.ndjson"))
+    open(os.path.join(wd, "TraceLin.cfg"), "w").write(LIN_CFG)
+    rc, out = tlc(wd, "TraceLin", "TraceLin.cfg", workers=1, timeout=timeout, xmx="3g", deque=True, light=True)
+    gen, _ = tlc_stats(out)
+    shutil.rmtree(wd, ignore_errors=True)
+    if "Invariant NotLinearized is violated" in out:
+        return dict(linearizable=True, states=gen)
+    if "Model checking completed. No error has been found." in out:
+        return dict(linearizable=False, states=gen)
+    raise Inconclusive("linearizability search failed on %s:\n%s" % (hist_path, "\n".join(out.splitlines()[-25:])))
+
+
 def scratch(tag):
     return tempfile.mkdtemp(prefix="verif-%s-" % tag)
 
